@@ -85,6 +85,15 @@ def equations():
            native=lambda n: (n['PF3', 'inline'], '{ id: boolean, ' + n['Inner', 'inline'][2:-2] + ' } & (' + n['En1', 'inline'] + ')'))
         eq('inlined enum / struct fields and a by-name generic enum (PF4)', one('PF4<T>', 'inline', ['T']),
            ('ok', o('{ e: ') + en1[1] + o(', s: ') + inner[1] + o(', n: En2<') + [Hole('T.name')] + o('>, }')))
+    # a struct with a container-level tag, flattened: the tag is one of its properties and travels with them
+    tg1 = one('Tg1<T>', 'inline', ['T'])
+    if tg1[0] == 'ok':
+        tbody = tg1[1][2:-2]
+        eq('own field + flattened tagged struct: the tag property is merged with the others (PF5)', one('PF5<T>', 'inline', ['T']),
+           ('ok', o('{ id: boolean, ') + tbody + o(' }')),
+           native=lambda n: (n['PF5', 'inline'], '{ id: boolean, ' + n['Tg1', 'inline'][2:-2] + ' }'))
+        eq('a lone flattened tagged struct is that struct (PF6)', one('PF6<T>', 'inline', ['T']), tg1,
+           native=lambda n: (n['PF6', 'inline'], n['Tg1', 'inline']))
     return out
 
 
